@@ -1,21 +1,34 @@
 /-
 Model of the glue between sent_packet_handler.go and the congestion controller (property C20):
 which calls `SentPacket`, `ReceivedAck`, `OnLossDetectionTimeout` (detectLostPackets) and
-`SetMaxDatagramSize` make on `h.congestion`, in which order and with which packet numbers — for the
-application-data packet number space, the only one with ECN.
+`SetMaxDatagramSize` make on `h.congestion`, in which order, with which packet numbers and with which
+`bytesInFlight` — and how the handler's `bytesInFlight` counter is kept across every operation that
+writes packets off: acknowledgement, loss, `QueueProbePacket`, `DropPackets` (Initial / Handshake
+space, rejected 0-RTT), `ResetForRetry` and `MigratedPath` (which also installs a fresh controller).
+All three packet number spaces are modelled (0 Initial, 1 Handshake, 2 application data; ECN applies
+to 1-RTT packets only).
 
 What the handler decides elsewhere is environment here and is taken from the implementation's own
 observable outputs: the packet number `PopPacketNumber` returned, which packets loss detection
-declared lost (the frames' `OnLost` callbacks; C06 covers that logic) and whether the ECN tracker
-reported congestion for this ACK (`ecnTracker.HandleNewlyAcked`).  The glue logic itself is modelled:
+removed from the history (C06 covers that logic), which path probes are still outstanding, and whether
+the ECN tracker reported congestion for this ACK (`ecnTracker.HandleNewlyAcked`).  The glue logic
+itself is modelled:
 
+* `SentPacket`: a path probe packet is tracked outside the history (a placeholder stays in it), is not
+  counted in bytes in flight and is not reported to the controller; every other packet is reported
+  with `OnPacketSent`, after an ack-eliciting packet's size was added to `bytesInFlight`.
 * `ReceivedAck`: nothing at all unless the ACK newly acknowledges a tracked packet; then
-  `MaybeExitSlowStart` iff the largest acknowledged is newly acknowledged and some newly acknowledged
-  packet is ack-eliciting; then, if the tracker reported congestion,
-  `OnCongestionEvent(LARGEST ACKED of this frame, 0, priorInFlight)`; then for every lost ack-eliciting
-  packet in ascending order `OnCongestionEvent(ITS OWN number, its size, priorInFlight)`; then
-  `OnPacketAcked` for every newly acknowledged in-flight packet in ascending order.
+  `MaybeExitSlowStart` iff the largest acknowledged is newly acknowledged, is not a path probe and some
+  newly acknowledged packet is ack-eliciting; then, if the tracker reported congestion,
+  `OnCongestionEvent(LARGEST ACKED of this frame, 0, priorInFlight)`; then for every lost outstanding
+  packet (ack-eliciting, no Path MTU probe, no path probe) in ascending order
+  `OnCongestionEvent(ITS OWN number, its size, priorInFlight)`; then `OnPacketAcked` for every newly
+  acknowledged packet counted in bytes in flight, in ascending order.  `removeFromBytesInFlight` runs
+  for every lost ack-eliciting packet (Path MTU probes included) and every acknowledged packet.
 * `detectLostPackets` from the loss timer: the loss events only.
+* `MigratedPath`: every packet of the application-data history is written off — removed from the
+  history and from bytes in flight, Path MTU probes included; only path probes were never counted —
+  and the controller is replaced by a new one for the new path's datagram size.
 -/
 import Uquic.Model.Cong.Sender
 
@@ -24,8 +37,26 @@ namespace Uquic.Model.Cong
 structure Pkt where
   pn : Int
   size : Nat
-  ae : Bool            -- ack-eliciting = counted in bytes in flight
+  ae : Bool            -- ack-eliciting (has frames)
+  sp : Nat := 2        -- packet number space: 0 Initial, 1 Handshake, 2 application data
+  zero : Bool := false -- sent with 0-RTT keys
+  mtu : Bool := false  -- Path MTU probe packet
+  probe : Bool := false -- path probe packet (PATH_CHALLENGE on another path)
 deriving Repr, BEq, DecidableEq
+
+/-- (space, packet number) -/
+def Pkt.key (p : Pkt) : Nat × Int := (p.sp, p.pn)
+
+/-- `includedInBytesInFlight` as `SentPacket` sets it -/
+def Pkt.inFlight (p : Pkt) : Bool := p.ae && !p.probe
+
+/-- `packet.Outstanding()`; also the packets whose loss is reported to the controller -/
+def Pkt.outstanding (p : Pkt) : Bool := p.ae && !p.mtu && !p.probe
+
+/-- total size of the packets counted in bytes in flight -/
+def inFlightBytes : List Pkt → Nat
+  | [] => 0
+  | p :: r => (if p.inFlight then p.size else 0) + inFlightBytes r
 
 /-- a call on the `SendAlgorithm` interface -/
 inductive Call where
@@ -45,13 +76,21 @@ def Call.toOp : Call → Op
 
 structure Glue where
   s : Sender
-  /-- tracked packets of the application-data space, ascending packet numbers -/
+  /-- tracked packets of all spaces in send order (ascending packet numbers within a space): the
+      histories' packets and the outstanding path probe packets -/
   out : List Pkt := []
+  /-- largest packet number sent in the application-data space -/
   largestSent : Int := -1
+  /-- `h.bytesInFlight`, the handler's counter -/
+  bytesInFlight : Nat := 0
+  /-- path probes whose placeholder is still in the application-data history (environment) -/
+  ph : List Int := []
 deriving Repr
 
-def Glue.bytesInFlight (g : Glue) : Nat :=
-  (g.out.filter (·.ae)).foldl (fun a p => a + p.size) 0
+/-- the counter agrees with the tracked packets -/
+def Glue.Balanced (g : Glue) : Prop := g.bytesInFlight = inFlightBytes g.out
+
+instance (g : Glue) : Decidable g.Balanced := inferInstanceAs (Decidable (g.bytesInFlight = inFlightBytes g.out))
 
 def covered (ranges : List (Int × Int)) (pn : Int) : Bool :=
   ranges.any fun r => decide (r.1 ≤ pn) && decide (pn ≤ r.2)
@@ -59,42 +98,88 @@ def covered (ranges : List (Int × Int)) (pn : Int) : Bool :=
 def largestOf (ranges : List (Int × Int)) : Int :=
   ranges.foldl (fun a r => Max.max a r.2) (-1)
 
-/-- the calls `ReceivedAck` makes for an ACK frame that passed validation -/
-def Glue.ackCalls (g : Glue) (ranges : List (Int × Int)) (congested : Bool) (lost : List Int) : List Call :=
-  let newly := g.out.filter fun p => covered ranges p.pn
+def Glue.apply (g : Glue) (calls : List Call) : Glue :=
+  { g with s := g.s.run (calls.map Call.toOp) }
+
+/-- the packets selected by `f` leave the tracked set; `removeFromBytesInFlight` runs for each -/
+def Glue.drop (g : Glue) (f : Pkt → Bool) : Glue :=
+  { g with out := g.out.filter (fun p => !f p), bytesInFlight := g.bytesInFlight - inFlightBytes (g.out.filter f) }
+
+/-- `removeFromBytesInFlight` would panic ("negative bytes_in_flight") while removing these packets -/
+def Glue.dropPanics (g : Glue) (f : Pkt → Bool) : Bool := decide (inFlightBytes (g.out.filter f) > g.bytesInFlight)
+
+/-- `detectAndRemoveAckedPackets`: a tracked packet of space `sp` inside the ACK ranges; a path probe
+only while its placeholder is still in the history -/
+def Glue.isNewly (g : Glue) (sp : Nat) (ranges : List (Int × Int)) (p : Pkt) : Bool :=
+  p.sp == sp && covered ranges p.pn && (!p.probe || g.ph.contains p.pn)
+
+/-- the calls `ReceivedAck` makes for an ACK frame that passed validation; `gone` = the packets loss
+detection removed (environment) -/
+def Glue.ackCalls (g : Glue) (ranges : List (Int × Int)) (congested : Bool) (gone : List (Nat × Int)) (sp : Nat := 2) : List Call :=
+  let newly := g.out.filter (g.isNewly sp ranges)
   if newly.isEmpty then []
   else
     let largest := largestOf ranges
     let prior := g.bytesInFlight
-    let rest := g.out.filter fun p => !covered ranges p.pn
-    let exit := (newly.getLast?.map (·.pn)) == some largest && newly.any (·.ae)
+    let rest := g.out.filter fun p => !g.isNewly sp ranges p
+    let exit := (newly.getLast?.map fun p => (p.pn, p.probe)) == some (largest, false) && newly.any (fun p => p.ae && !p.probe)
     (if exit then [Call.exitSS] else []) ++
     (if congested then [Call.cong largest 0 prior] else []) ++
-    ((rest.filter fun p => p.ae && lost.contains p.pn).map fun p => Call.cong p.pn p.size prior) ++
-    ((newly.filter (·.ae)).map fun p => Call.acked p.pn p.size prior)
+    ((rest.filter fun p => p.outstanding && gone.contains p.key).map fun p => Call.cong p.pn p.size prior) ++
+    ((newly.filter (·.inFlight)).map fun p => Call.acked p.pn p.size prior)
 
 /-- the calls `detectLostPackets` makes from the loss-detection timer -/
-def Glue.timeoutCalls (g : Glue) (lost : List Int) : List Call :=
+def Glue.timeoutCalls (g : Glue) (gone : List (Nat × Int)) : List Call :=
   let prior := g.bytesInFlight
-  (g.out.filter fun p => p.ae && lost.contains p.pn).map fun p => Call.cong p.pn p.size prior
+  (g.out.filter fun p => p.outstanding && gone.contains p.key).map fun p => Call.cong p.pn p.size prior
 
-def Glue.apply (g : Glue) (calls : List Call) : Glue :=
-  { g with s := g.s.run (calls.map Call.toOp) }
+/-- `SentPacket` -/
+def Glue.send (g : Glue) (t pn : Int) (size : Nat) (ae : Bool) (sp : Nat := 2) (zero : Bool := false)
+    (mtu : Bool := false) (probe : Bool := false) : Glue × List Call :=
+  let pkt : Pkt := { pn := pn, size := size, ae := ae, sp := sp, zero := zero, mtu := mtu, probe := probe }
+  let ls := if sp = 2 then pn else g.largestSent
+  if probe then
+    ({ g with out := g.out ++ [pkt], largestSent := ls, ph := g.ph ++ [pn] }, [])
+  else
+    let calls := [Call.sent t pn size ae]
+    ({ (g.apply calls) with out := g.out ++ [pkt], largestSent := ls, bytesInFlight := if ae then g.bytesInFlight + size else g.bytesInFlight }, calls)
 
-/-- `SentPacket` for a 1-RTT packet -/
-def Glue.send (g : Glue) (t pn : Int) (size : Nat) (ae : Bool) : Glue × List Call :=
-  let calls := [Call.sent t pn size ae]
-  ({ (g.apply calls) with out := g.out ++ [{ pn := pn, size := size, ae := ae }], largestSent := pn }, calls)
+/-- `ReceivedAck` in space `sp`; `ph` = the placeholders left afterwards (environment) -/
+def Glue.ack (g : Glue) (ranges : List (Int × Int)) (congested : Bool) (gone : List (Nat × Int)) (sp : Nat := 2)
+    (ph : List Int := []) : Glue × List Call :=
+  if (g.out.filter (g.isNewly sp ranges)).isEmpty then (g, [])
+  else
+    let calls := g.ackCalls ranges congested gone sp
+    ({ ((g.apply calls).drop fun p => g.isNewly sp ranges p || gone.contains p.key) with ph := ph }, calls)
 
-/-- `ReceivedAck`; `tracked` = the packet numbers still in the space's history afterwards (environment) -/
-def Glue.ack (g : Glue) (ranges : List (Int × Int)) (congested : Bool) (lost tracked : List Int) : Glue × List Call :=
-  let calls := g.ackCalls ranges congested lost
-  ({ (g.apply calls) with out := g.out.filter fun p => tracked.contains p.pn }, calls)
+/-- `OnLossDetectionTimeout` in loss-timer mode (and `detectLostPathProbes`) -/
+def Glue.timeout (g : Glue) (gone : List (Nat × Int)) (ph : List Int := []) : Glue × List Call :=
+  let calls := g.timeoutCalls gone
+  ({ ((g.apply calls).drop fun p => gone.contains p.key) with ph := ph }, calls)
 
-/-- `OnLossDetectionTimeout` in loss-timer mode -/
-def Glue.timeout (g : Glue) (lost tracked : List Int) : Glue × List Call :=
-  let calls := g.timeoutCalls lost
-  ({ (g.apply calls) with out := g.out.filter fun p => tracked.contains p.pn }, calls)
+/-- `QueueProbePacket(encLevel)`: the first outstanding packet of the space is declared lost -/
+def Glue.queueProbe (g : Glue) (sp : Nat) : Glue × Bool :=
+  match g.out.find? (fun p => p.sp == sp && p.outstanding) with
+  | none => (g, false)
+  | some q => (g.drop fun p => p.key == q.key, true)
+
+/-- `DropPackets(Initial | Handshake)` -/
+def Glue.dropSpace (g : Glue) (sp : Nat) : Glue := g.drop fun p => p.sp == sp
+
+/-- `DropPackets(0-RTT)`: 0-RTT was rejected; the leading 0-RTT packets of the application-data history go -/
+def Glue.dropZeroRTT (g : Glue) : Glue :=
+  let z := ((g.out.filter fun p => p.sp == 2 && !p.probe).takeWhile (·.zero)).map (·.pn)
+  g.drop fun p => p.sp == 2 && !p.probe && z.contains p.pn
+
+/-- `ResetForRetry`: `bytesInFlight = 0`, fresh Initial and application-data spaces -/
+def Glue.retry (g : Glue) : Glue :=
+  { g with out := g.out.filter (fun p => p.sp == 1), bytesInFlight := 0, ph := [], largestSent := -1 }
+
+/-- `MigratedPath(now, initialMaxDatagramSize)`; `rtt` = the estimator after `ResetForPathMigration`,
+`pp` = the path probes `RemovePathProbe` left behind (environment) -/
+def Glue.migrate (g : Glue) (mds : Nat) (rtt : Rtt) (pp : List Int) : Glue :=
+  let g1 := g.drop fun p => p.sp == 2 && !p.probe
+  { g1 with s := Sender.new mds rtt, out := g1.out.filter (fun p => !p.probe || pp.contains p.pn), ph := [] }
 
 /-- several ack-eliciting packets of one size sent at one instant -/
 def Glue.sendMany (g : Glue) (t : Int) (size : Nat) : List Int → Glue
@@ -102,10 +187,57 @@ def Glue.sendMany (g : Glue) (t : Int) (size : Nat) : List Int → Glue
   | pn :: r => Glue.sendMany (g.send t pn size true).1 t size r
 
 /-- the variant seeded as C20-r2s2: the ECN-CE event reported with the space's largest SENT packet -/
-def Glue.ackCallsWrong (g : Glue) (ranges : List (Int × Int)) (congested : Bool) (lost : List Int) : List Call :=
-  (g.ackCalls ranges congested lost).map fun c =>
+def Glue.ackCallsWrong (g : Glue) (ranges : List (Int × Int)) (congested : Bool) (gone : List (Nat × Int)) : List Call :=
+  (g.ackCalls ranges congested gone).map fun c =>
     match c with
     | .cong _ 0 prior => .cong g.largestSent 0 prior
     | c => c
+
+/-- the variant seeded as C20-r4s2: `MigratedPath` tests the wrong packet flag and leaves the Path MTU
+probes counted in bytes in flight although they left the history -/
+def Glue.migrateWrong (g : Glue) (mds : Nat) (rtt : Rtt) (pp : List Int) : Glue :=
+  let g1 := g.drop fun p => p.sp == 2 && !p.probe
+  { g1 with s := Sender.new mds rtt, out := g1.out.filter (fun p => !p.probe || pp.contains p.pn), ph := [],
+            bytesInFlight := g.bytesInFlight - inFlightBytes (g.out.filter fun p => p.sp == 2 && !p.probe && !p.mtu) }
+
+/-! ### histories of handler operations -/
+
+/-- an operation of the handler, with its environment inputs -/
+inductive GOp where
+  | send (t pn : Int) (size : Nat) (ae : Bool) (sp : Nat) (zero mtu probe : Bool)
+  | ack (ranges : List (Int × Int)) (congested : Bool) (gone : List (Nat × Int)) (sp : Nat) (ph : List Int)
+  | timeout (gone : List (Nat × Int)) (ph : List Int)
+  | queueProbe (sp : Nat)
+  | dropSpace (sp : Nat)
+  | dropZeroRTT
+  | retry
+  | migrate (mds : Nat) (rtt : Rtt) (pp : List Int)
+  | setMDS (m : Nat)
+  | rtt (r : Rtt)
+deriving Repr
+
+def Glue.stepG (g : Glue) : GOp → Glue
+  | .send t pn size ae sp zero mtu probe => (g.send t pn size ae sp zero mtu probe).1
+  | .ack ranges congested gone sp ph => (g.ack ranges congested gone sp ph).1
+  | .timeout gone ph => (g.timeout gone ph).1
+  | .queueProbe sp => (g.queueProbe sp).1
+  | .dropSpace sp => g.dropSpace sp
+  | .dropZeroRTT => g.dropZeroRTT
+  | .retry => g.retry
+  | .migrate mds rtt pp => g.migrate mds rtt pp
+  | .setMDS m => g.apply [Call.mds m]
+  | .rtt r => { g with s := { g.s with rtt := r } }
+
+/-- the caller's contract: a Retry is processed only while no Handshake packet is in flight (the client
+has no Handshake keys before it has seen the server's Initial) -/
+def GOp.ok (g : Glue) : GOp → Prop
+  | .retry => inFlightBytes (g.out.filter fun p => p.sp == 1) = 0
+  | _ => True
+
+def Glue.okRun : Glue → List GOp → Prop
+  | _, [] => True
+  | g, op :: r => op.ok g ∧ Glue.okRun (g.stepG op) r
+
+def Glue.runG (g : Glue) (ops : List GOp) : Glue := ops.foldl Glue.stepG g
 
 end Uquic.Model.Cong
